@@ -131,6 +131,22 @@ var profiles = []profile{
 	{"counter", func(k []string) [][]string { return [][]string{{"SET", k[0], "0"}} },
 		func(r *rand.Rand, k []string, u string) []string {
 			key := k[r.Intn(3)]
+			if r.Intn(5) == 0 { // the family's other single-key commands
+				switch r.Intn(6) {
+				case 0:
+					return []string{"INCRBYFLOAT", key, "0.5"}
+				case 1:
+					return []string{"DECRBY", key, "2"}
+				case 2:
+					return []string{"GETRANGE", key, "0", "-1"}
+				case 3:
+					return []string{"TYPE", key}
+				case 4:
+					return []string{"TTL", key}
+				default:
+					return []string{"MGET", key}
+				}
+			}
 			switch r.Intn(10) {
 			case 0, 1, 2, 3:
 				return []string{"INCR", key}
@@ -151,6 +167,22 @@ var profiles = []profile{
 	{"string", func(k []string) [][]string { return nil },
 		func(r *rand.Rand, k []string, u string) []string {
 			key := k[r.Intn(3)]
+			if r.Intn(5) == 0 {
+				switch r.Intn(6) {
+				case 0:
+					return []string{"SETRANGE", key, "1", u}
+				case 1:
+					return []string{"GETRANGE", key, "1", "2"}
+				case 2:
+					return []string{"STRLEN", key}
+				case 3:
+					return []string{"PERSIST", key}
+				case 4:
+					return []string{"SET", key, u, "XX"}
+				default:
+					return []string{"MGET", key}
+				}
+			}
 			switch r.Intn(10) {
 			case 0, 1:
 				return []string{"APPEND", key, u}
@@ -175,6 +207,28 @@ var profiles = []profile{
 	{"list", func(k []string) [][]string { return [][]string{{"RPUSH", k[0], "s1", "s2"}} },
 		func(r *rand.Rand, k []string, u string) []string {
 			key := k[r.Intn(3)]
+			if r.Intn(4) == 0 {
+				switch r.Intn(9) {
+				case 0:
+					return []string{"LINDEX", key, pick(r, "0", "-1", "1")}
+				case 1:
+					return []string{"LPOS", key, "s1"}
+				case 2:
+					return []string{"LSET", key, "0", u}
+				case 3:
+					return []string{"LTRIM", key, "0", "2"}
+				case 4:
+					return []string{"LPUSHX", key, u}
+				case 5:
+					return []string{"RPUSHX", key, u}
+				case 6:
+					return []string{"LRANGE", key, "1", "1"}
+				case 7:
+					return []string{"LPOP", key, "2"}
+				default:
+					return []string{"RPOP", key, "2"}
+				}
+			}
 			switch r.Intn(12) {
 			case 0, 1:
 				return []string{"LPUSH", key, u}
@@ -197,6 +251,20 @@ var profiles = []profile{
 	{"set", func(k []string) [][]string { return [][]string{{"SADD", k[0], "m1", "m2"}} },
 		func(r *rand.Rand, k []string, u string) []string {
 			key := k[r.Intn(3)]
+			if r.Intn(5) == 0 {
+				switch r.Intn(5) {
+				case 0:
+					return []string{"SRANDMEMBER", key}
+				case 1:
+					return []string{"SUNION", key}
+				case 2:
+					return []string{"SINTER", key}
+				case 3:
+					return []string{"SDIFF", key}
+				default:
+					return []string{"SREM", key, "m1", "m2"}
+				}
+			}
 			switch r.Intn(11) {
 			case 0, 1, 2:
 				return []string{"SADD", key, pick(r, "m1", "m2", "m3", u)}
@@ -217,6 +285,26 @@ var profiles = []profile{
 	{"hash", func(k []string) [][]string { return [][]string{{"HSET", k[0], "n", "0"}} },
 		func(r *rand.Rand, k []string, u string) []string {
 			key := k[r.Intn(2)]
+			if r.Intn(3) == 0 {
+				switch r.Intn(9) {
+				case 0, 1:
+					return []string{"HKEYS", key}
+				case 2:
+					return []string{"HVALS", key}
+				case 3:
+					return []string{"HEXISTS", key, pick(r, "n", "f")}
+				case 4:
+					return []string{"HMGET", key, "n", "f", "g"}
+				case 5:
+					return []string{"HSTRLEN", key, pick(r, "n", "f")}
+				case 6:
+					return []string{"HSETNX", key, pick(r, "f", "g"), u}
+				case 7:
+					return []string{"HINCRBYFLOAT", key, "n", "0.5"}
+				default:
+					return []string{"HRANDFIELD", key}
+				}
+			}
 			switch r.Intn(8) {
 			case 0, 1, 2:
 				return []string{"HINCRBY", key, "n", "1"}
@@ -235,6 +323,20 @@ var profiles = []profile{
 	{"zset", func(k []string) [][]string { return [][]string{{"ZADD", k[0], "1", "a", "2", "b"}} },
 		func(r *rand.Rand, k []string, u string) []string {
 			key := k[r.Intn(2)]
+			if r.Intn(5) == 0 {
+				switch r.Intn(5) {
+				case 0:
+					return []string{"ZADD", key, pick(r, "NX", "XX", "GT", "LT"), strconv.Itoa(r.Intn(4)), pick(r, "a", "b", "c")}
+				case 1:
+					return []string{"ZADD", key, "CH", strconv.Itoa(r.Intn(4)), pick(r, "a", "b"), "3", "c"}
+				case 2:
+					return []string{"ZRANGE", key, "0", "0"}
+				case 3:
+					return []string{"ZREM", key, "a", "b"}
+				default:
+					return []string{"ZRANK", key, "c"}
+				}
+			}
 			switch r.Intn(8) {
 			case 0, 1, 2:
 				return []string{"ZADD", key, strconv.Itoa(r.Intn(4)), pick(r, "a", "b", "c", "d")}
@@ -325,6 +427,8 @@ func main() {
 	progress := flag.String("progress", "", "file receiving the number of the history in progress")
 	hbase := flag.Int("hbase", 0, "first history number")
 	only := flag.String("profile", "", "use only this profile (lin mode)")
+	pshard := flag.Int("pshard", 0, "pairs mode: this process takes the pairs with index = pshard mod pn")
+	pn := flag.Int("pn", 1, "pairs mode: number of processes")
 	flag.Parse()
 
 	impl.Init(0)
@@ -340,6 +444,44 @@ func main() {
 		prog, _ = os.OpenFile(*progress, os.O_CREATE|os.O_WRONLY, 0644)
 	}
 	totalOps, anomalies, slowHistories, deadlocks := 0, 0, 0, 0
+
+	// pairs mode: per family, every unordered pair (a, b) - a = b included - of the distinct single-key commands its generator
+	// produces, all on ONE key: one history each, client 1 runs a while client 2 runs b on a freshly set up value. Meant for
+	// the race-detector build: two commands that touch the same memory without a lock ordering them are reported whether
+	// or not they collide in time.
+	type pairJob struct {
+		pf   profile
+		a, b []string
+	}
+	var pairJobs []pairJob
+	if *mode == "pairs" {
+		pr := rand.New(rand.NewSource(12345))
+		for _, pf := range profiles {
+			seen := map[string]bool{}
+			var pool [][]string
+			for d := 0; d < 600; d++ {
+				c := pf.next(pr, []string{"PK", "PK", "PK"}, "u1")
+				k := strings.Join(c, " ")
+				if !seen[k] && len(pool) < 48 {
+					seen[k] = true
+					pool = append(pool, c)
+				}
+			}
+			for i := range pool {
+				for j := i; j < len(pool); j++ {
+					pairJobs = append(pairJobs, pairJob{pf, pool[i], pool[j]})
+				}
+			}
+		}
+		var mine []pairJob
+		for i, j := range pairJobs {
+			if i%*pn == *pshard {
+				mine = append(mine, j)
+			}
+		}
+		pairJobs = mine
+		*nh = len(pairJobs)
+	}
 
 	for hi := 0; hi < *nh; hi++ {
 		if deadlocks >= 2 {
@@ -364,12 +506,18 @@ func main() {
 				}
 			}
 		}
+		if *mode == "pairs" {
+			pf = pairJobs[hi].pf
+		}
 		churn := false
 		if *mode == "deadlock" {
 			pf = profiles[[]int{1, 2, 3}[r.Intn(3)]] // string, list, set: the families with multi-key commands
 			churn = r.Intn(3) == 0                   // keyspace churn: many clients creating / deleting distinct keys + KEYS *
 		}
 		keys := pickKeys(db, r, pf.name[:1])
+		if *mode == "pairs" {
+			keys = []string{"PK", "PK", "PK"}
+		}
 		var ops []*op
 		var ticket int64
 		newOp := func(client int, argv []string) *op {
@@ -394,8 +542,15 @@ func main() {
 		if churn {
 			nc = 8 + r.Intn(9)
 		}
+		if *mode == "pairs" {
+			nc = 2
+		}
 		per := make([][]*op, nc)
-		for c := 0; c < nc; c++ {
+		if *mode == "pairs" {
+			per[0] = append(per[0], newOp(1, pairJobs[hi].a))
+			per[1] = append(per[1], newOp(2, pairJobs[hi].b))
+		}
+		for c := 0; c < nc && *mode != "pairs"; c++ {
 			k := 1 + r.Intn(*nops)
 			if churn {
 				k = 40
